@@ -80,3 +80,21 @@ def replay_find(ctx, res, v):
     for b in out["tags"].get("BAD", []):
         res.violation({"rule": "find.mismatch", "pattern": b["text"], "input": b["s"], "start": b["start"],
                        "predicted": b["pred"], "real": b["real"]})
+
+
+def attribute_find(ctx, viols, gate):
+    """re-runs the violating find cases with a rewrite gate on; returns those that now agree with the specification"""
+    cases, idx = [], []
+    for i, v in enumerate(viols):
+        if v.get("rule") in ("find.mismatch",) and "p" in v and "input" in v:
+            cases.append({"p": v["p"], "o": v["options"], "dia": v["dialect"], "rtl": v["rtl"], "s": v["input"]})
+            idx.append(i)
+    if not cases:
+        return []
+    cpath = os.path.join(ctx.dir, f"attr-{gate}.json")
+    json.dump(cases, open(cpath, "w"))
+    path = os.path.join(ctx.dir, f"attr-{gate}.ndjson")
+    ctx.run_vh(["record-find", "-case", cpath, "-o", path], env_extra={"VERIF_GATES": gate})
+    out = ctx.tlc("Obs_Find", "Obs.cfg", env_extra={"VERIF_OBS": path})
+    still_bad = {(b["id"], b["start"]) for b in out["tags"].get("BAD", [])}
+    return [viols[i] for k, i in enumerate(idx) if (k + 1, viols[i]["start"]) not in still_bad]
